@@ -28,6 +28,12 @@ func init() {
 
 var c11Progs = []string{
 	`a*2+b`,
+	// constant maps with spare capacity (accept that rejected an entry, put chains) extended per evaluation
+	`let base={p:1,q:2,r:3}.accept((k,v)->v<3); (base+{id:a}).id+(base+{z:b}).z+base.size()`,
+	`let base={p:1}.put("q",2).put("r",3); base.put("id",a).id+(base+{z:b}).z+base.replace(o->{p:a}).p`,
+	// failing lookups: the error paths of the generator are shared state, too
+	`[try a.nosuch() catch 1, try "s".nosuch() catch 2, try [a].nosuch() catch 3, try {k:a}.nosuch() catch b, try {k:1}.j catch a]`,
+	`try [1,2].map(x->x.k).sum() catch e->a+b`,
 	// run-time access to lazy lists whose producers call closures on the stack they are handed
 	`numbers(5).combine((p,q)->p+q*a)[b%4]+numbers(4).number((i,x)->x*a+i)[a%4]`,
 	`numbers(5).map(x->x+a).iir(x->x,(x,l)->l+x)[a%5]+numbers(5).combine3((p,q,r)->p+q+r+b)[1]`,
